@@ -7,6 +7,7 @@
 #include "../engine/json.hpp"
 #include "../engine/mc.hpp"
 
+#include <locale>
 #include <nitro/except/exception.hpp>
 #include <nitro/except/raise.hpp>
 #include <nitro/format/format.hpp>
@@ -274,6 +275,53 @@ static void check_typed(const std::string& f, const std::vector<int>& ix, std::v
         out.push_back({ "typed-argument-text-differs-from-its-stream-representation", ctx + " = " + mc::jstr(got) + " expected " + mc::jstr(want) });
 }
 
+// ---- ambient state: the global locale.  "The stream representation of the argument" is what a fresh stream gives at the
+// moment the argument is supplied; a caller may change std::locale::global between two uses of the library (thousands
+// separators, decimal comma).  A history is a word over {c, d, s}: classic, dots (1.234.567 and 2,5), spaces (1 234 567);
+// after every change the same typed tuple is formatted again and compared with fresh streams.
+struct DotsPunct : std::numpunct<char>
+{
+    char do_thousands_sep() const override { return '.'; }
+    char do_decimal_point() const override { return ','; }
+    std::string do_grouping() const override { return "\3"; }
+    std::string do_truename() const override { return "wahr"; }
+    std::string do_falsename() const override { return "falsch"; }
+};
+struct SpacesPunct : std::numpunct<char>
+{
+    char do_thousands_sep() const override { return ' '; }
+    std::string do_grouping() const override { return "\3"; }
+};
+static void set_global_locale(char which)
+{
+    if (which == 'd')
+        std::locale::global(std::locale(std::locale::classic(), new DotsPunct));
+    else if (which == 's')
+        std::locale::global(std::locale(std::locale::classic(), new SpacesPunct));
+    else
+        std::locale::global(std::locale::classic());
+}
+static void check_typed_locale(const std::string& f, const std::vector<int>& ix, const std::string& word, std::vector<Fail>& out, long& execs)
+{
+    std::string sofar;
+    for (char w : word)
+    {
+        set_global_locale(w);
+        sofar += w;
+        size_t before = out.size();
+        check_typed(f, ix, out, execs);
+        for (size_t i = before; i < out.size(); i++)
+        {
+            if (out[i].clause == "typed-argument-text-differs-from-its-stream-representation")
+                out[i].clause = "argument-text-differs-from-its-stream-representation-after-a-change-of-the-global-locale";
+            out[i].detail += "  [global locale history " + sofar + ": c = classic, d = grouping with '.' and decimal ',', s = grouping with ' ']";
+        }
+        if (out.size() != before)
+            break;
+    }
+    set_global_locale('c');
+}
+
 // ---- histories on one formatter object: arguments supplied in both ways, interleaved with reads and copies.
 // The text (or the raise) of every read is a function of the format and of the arguments supplied so far - not of
 // earlier reads.  Events: p/q = `% "x"` / `% "{}"`, a = args("x"), b = args("y","{}"), z = args(), S = str(),
@@ -482,7 +530,10 @@ int main(int argc, char** argv)
             std::vector<int> ix;
             for (auto& v : w.at("typed").arr)
                 ix.push_back(static_cast<int>(v.num));
-            check_typed(w.s("format"), ix, f, ex);
+            if (w.has("locale_history"))
+                check_typed_locale(w.s("format"), ix, w.s("locale_history"), f, ex);
+            else
+                check_typed(w.s("format"), ix, f, ex);
         }
         else if (w.has("format") && w.has("events"))
             check_history(w.s("format"), w.s("events"), f, ex);
@@ -576,6 +627,52 @@ int main(int argc, char** argv)
                         break;
                 }
             }
+        // (2b) ambient state: every history of <= 3 global-locale changes x every tuple of <= 2 typed values on three formats
+        {
+            std::vector<std::string> words;
+            for (const char* a1 : { "c", "d", "s" })
+            {
+                words.push_back(a1);
+                for (const char* a2 : { "c", "d", "s" })
+                {
+                    if (a1[0] != a2[0])
+                        words.push_back(std::string(a1) + a2);
+                    for (const char* a3 : { "c", "d", "s" })
+                        if (a1[0] != a2[0] && a2[0] != a3[0])
+                            words.push_back(std::string(a1) + a2 + a3);
+                }
+            }
+            for (auto& f : { std::string("{}"), std::string("{} {}"), std::string("a{}b") })
+                for (auto& word : words)
+                    for (size_t n = placeholders(f); n <= placeholders(f); n++)
+                    {
+                        std::vector<int> ix(n, 0);
+                        for (;;)
+                        {
+                            long idx = ctx.next;
+                            std::string t = "[";
+                            for (size_t i = 0; i < ix.size(); i++)
+                                t += (i ? "," : "") + std::to_string(ix[i]);
+                            t += "]";
+                            ctx.each([&] { return mc::Desc{ mc::J().s("format", f).raw("typed", t).s("locale_history", word).str(), "typed under locale history" }; },
+                                     [&](mc::Report& rep) {
+                                         std::vector<Fail> fl;
+                                         long ex = 0;
+                                         check_typed_locale(f, ix, word, fl, ex);
+                                         rep.count("executions", ex);
+                                         rep.count("locale_history_cases");
+                                         rep.transitions.insert(mc::hash(f + "\x1flocale" + word + t));
+                                         for (auto& x : fl)
+                                             rep.violation(x.clause, "C08:" + x.clause + ":locale", mc::J().s("format", f).raw("typed", t).s("locale_history", word).str(), x.detail, idx);
+                                     });
+                            int p = static_cast<int>(n) - 1;
+                            while (p >= 0 && ++ix[p] == static_cast<int>(nt))
+                                ix[p--] = 0;
+                            if (p < 0)
+                                break;
+                        }
+                    }
+        }
         // (3) exception messages: each alone, then every ordered pair and triple (earlier ones must not influence the later one)
         for (int first = -1; first < static_cast<int>(rs.size()); first++)
             for (int mid = -1; mid < static_cast<int>(rs.size()); mid++)
